@@ -40,6 +40,13 @@ func c05Cells(tier string) []Cell {
 							Init: init, FailC: "0", Script: sc, Threads: p, Tags: []string{"burst"},
 						}
 						cells = append(cells, Cell{ID: c.ID()})
+
+						// the same burst against a slow data source (every build takes longer than UpdateTTL), followed by
+						// one more Get a little later: the result of the burst's build is still fresh then
+						if sc == "o" && len(p) == 2 && len(p[0]) == 1 && !p[0][0].CBef {
+							c.Tags = []string{"burst", "slow"}
+							cells = append(cells, Cell{ID: c.ID()})
+						}
 					}
 				}
 			}
@@ -106,9 +113,31 @@ func c05Burst(cfg FCfg, env *Env) CellResult {
 	}
 
 	front := frontNames[cfg.Front]
+	slow := len(cfg.Tags) > 1 && cfg.Tags[1] == "slow"
+	lateBuilds := 0
 
-	return exploreF(cfg, env, opt, nil, func(h *fh, r *vsched.Result) []Violation {
+	var post func(h *fh)
+
+	if slow {
+		post = func(h *fh) {
+			nb := h.nbuild[0]
+
+			vclock.Advance(updateTTL + 2*time.Second)
+
+			_, _, _, _ = h.front.Get(context.Background(), append([]byte(nil), h.keys[0]...), h.builder(0))
+			vsched.Join()
+
+			lateBuilds = h.nbuild[0] - nb
+		}
+	}
+
+	return exploreF(cfg, env, opt, post, func(h *fh, r *vsched.Result) []Violation {
 		var vs []Violation
+
+		if slow && lateBuilds != 0 {
+			vs = append(vs, Violation{Signature: fmt.Sprintf("C05 %s rebuild-while-fresh-after-burst init=%c", front, cfg.Init[0]),
+				Detail: fmt.Sprintf("a Get %v after a SyncRead burst whose (slow) build succeeded invoked the builder %d more times: the built value is fresh for the backend TTL of %v", updateTTL+2*time.Second, lateBuilds, backendTTL)})
+		}
 
 		want := 1
 		if cfg.Init[0] == 'F' {
@@ -117,7 +146,11 @@ func c05Burst(cfg FCfg, env *Env) CellResult {
 
 		okBuilds, failBuilds := 0, 0
 
-		for _, e := range h.log {
+		for i, e := range h.log {
+			if slow && i >= h.burstEnd && h.burstEnd > 0 {
+				break // the late Get is judged above
+			}
+
 			if e.Kind == "build-end" && e.Key == 0 {
 				if e.Err == nil {
 					okBuilds++
